@@ -28,7 +28,7 @@ type fsSystem struct {
 
 func newFSSystem(dir string, thorough, sameReorder bool) *fsSystem {
 	s := &fsSystem{dir: dir, thorough: thorough, sameReorder: sameReorder, maxPending: 4}
-	s.contents = []string{cV1, cV2, cRJ, cEmpty, cInv}
+	s.contents = []string{cV1, cV2, cRJ, cEmpty, cInv, cBlank}
 
 	if thorough {
 		s.contents = append(s.contents, cBad)
@@ -405,12 +405,12 @@ func (i *fsInst) quiescent(rep *stepReport) {
 		last := i.lastOp[f]
 
 		switch {
-		case (!exists || cur == cEmpty) && a != "" && i.sc.deleteRefused[src]:
+		case (!exists || isEmptyContent(cur)) && a != "" && i.sc.deleteRefused[src]:
 			rep.Outcomes = append(rep.Outcomes, "file_system/quiescent:unload-failed-in-processor,no-further-notification")
 		case !exists && a != "":
 			add("file_system/removed-source-still-active/at-quiescence-after-"+last, src,
 				"no notification pending, %s does not exist (last operation: %s) but %s is active", f, last, a)
-		case exists && cur == cEmpty && a != "":
+		case exists && isEmptyContent(cur) && a != "":
 			add("file_system/emptied-source-still-active/at-quiescence-after-"+last, src,
 				"no notification pending, %s is empty but %s is active", f, a)
 		case exists && isValidContent(cur) && a != cur:
